@@ -81,6 +81,10 @@ def gen_config(rng):
                     texts[scope].append("\tunrelated")      # value-less key inside the group's own section
                 texts[scope].append("\t%s = %s" % (key, q(val)))
             order.append((sym, kind, val))
+    if rng.random() < 0.25:
+        # a foreign entry longer than common buffer sizes (64 KiB, 1 MiB in the thorough tier): legal for git
+        n = rng.choice([65000, 65535, 65536, 65537, 70000, 200000])
+        texts[rng.choice(["global", "local"])] += ["[alias]", "\tlong = " + "x" * n]
     for scope in ("system", "global", "local"):
         if rng.random() < 0.6:
             texts[scope] = foreign_lines(rng) + texts[scope]
